@@ -194,6 +194,9 @@ func prepare(cfg *config) *built {
 	if err := writeJSON(constFile, rep.Constants); err != nil {
 		die2("%v", err)
 	}
+	if err := writeJSON(filepath.Join(scratch, "fconsts.json"), rep.FloatConsts); err != nil {
+		die2("%v", err)
+	}
 	hotFile := filepath.Join(scratch, "hot.json")
 	if err := writeJSON(hotFile, hot); err != nil {
 		die2("%v", err)
@@ -265,7 +268,7 @@ func workerCmd(b *built, outDir string, w int, args ...string) *exec.Cmd {
 		bin = b.worker2
 	}
 	cmd := exec.Command(bin, args...)
-	env := append(os.Environ(), "GEOSIM_HOT="+b.hotFile, "GEOSIM_CONSTS="+b.constFile)
+	env := append(os.Environ(), "GEOSIM_HOT="+b.hotFile, "GEOSIM_CONSTS="+b.constFile, "GEOSIM_FCONSTS="+filepath.Join(b.scratch, "fconsts.json"))
 	if len(b.rep.Uncontrolled) > 0 {
 		env = append(env, "GEOSIM_UNCONTROLLED=1")
 	}
@@ -950,6 +953,7 @@ func runCheck(cfg *config) int {
 			"library_locks_simulated":          b.rep.SimLocks,
 			"hot_sites_after_sync_ops":         b.nhot,
 			"integer_constants_harvested":      b.rep.Constants,
+			"float_constants_harvested":        b.rep.FloatConsts,
 			"constructs_outside_scheduler":     b.rep.Uncontrolled,
 			"controlled":                       agg.FreeRuns == 0,
 			"uncontrolled_fallback_runs":       agg.FreeRuns,
